@@ -33,8 +33,8 @@ IMPORTS = ("From Coq Require Import List ZArith QArith String Bool.\nImport List
 METHODS = ["standard", "alternative", "information_lasso", "lasso"]
 INFOS = ["gaussian", "knn", "kde", "geometric_knn", "poisson"]
 SLOW = {("poisson", "standard"), ("poisson", "alternative"), ("geometric_knn", "standard"), ("geometric_knn", "alternative")}
-LABEL_SCHEMES = [["a", "b", "c", "d"], ["X1", "X0", "X3", "X2"], ["X2", "x 1", "X0", "node-3"], [10, 20, 5, 7],
-                 ["0", "1", "2", "3"], [1, 0, 3, 2], ["temp", "flow", "X1", "level"]]
+LABEL_SCHEMES = [["a", "b", "c", "d", "e"], ["X1", "X0", "X3", "X2", "X4"], ["X2", "x 1", "X0", "node-3", "X9"], [10, 20, 5, 7, 3],
+                 ["0", "1", "2", "3", "4"], [1, 0, 3, 2, 4], ["temp", "flow", "X1", "level", "X0"]]
 
 
 # ------------------------------------------------------------------------------------------------
@@ -62,7 +62,7 @@ def gen_matrix(rng, T, n, kind):
     raise ValueError(kind)
 
 
-def gen_history(seed, idx, method, info, tier, search=False):
+def gen_history(seed, idx, method, info, tier, search=False, dead_chain=False):
     """search=True: tie-prone variant (duplicated column, integer-valued data) used for the failing-input search that
     follows a broken static obligation"""
     rng = np.random.default_rng([seed, idx, 7])
@@ -85,7 +85,34 @@ def gen_history(seed, idx, method, info, tier, search=False):
         kind = str(rng.choice(["real", "grid", "intgrid", "counts"], p=[0.3, 0.2, 0.3, 0.2]))
     if search and info != "poisson":
         kind = str(rng.choice(["intgrid", "counts", "real"]))
+    if dead_chain:
+        kind = "real"
+    dead = (not slow) and info in ("gaussian", "knn") and kind.split("+")[0] in ("real", "grid") and \
+        (dead_chain or rng.random() < (0.5 if search else 0.2))
+    dead_combo = [(0.1, 200), (3.3, 100), (37.2, 128), (0.7, 100)][int(rng.integers(0, 4))]
+    if dead and not (method in ("lasso", "information_lasso") and T <= n * L + L + 2):
+        # a dead channel: one variable is exactly constant at a non-dyadic value, in a record long enough for the rounding of a
+        # column sum to depend on the order of summation (C-ordered vs column-contiguous presentations of the same numbers)
+        T = dead_combo[1]
+        ns = min(ns, 25)
     A = gen_matrix(rng, T, n, kind)
+    if dead and A.shape[0] >= 100:
+        if dead_chain:
+            # weakly coupled chain x0 -> x2 -> x3 -> x4 (coefficient 0.2): several borderline tests per target, so that every draw
+            # of the per-call generator matters for the p-values
+            n = 5
+            e = rng.normal(size=(T, n))
+            A = np.zeros((T, n))
+            for t_ in range(1, T):
+                A[t_, 0] = 0.3 * A[t_ - 1, 0] + e[t_, 0]
+                for j in range(2, n):
+                    A[t_, j] = 0.2 * A[t_ - 1, j - 1 if j > 2 else 0] + e[t_, j]
+            A[:, 1] = dead_combo[0]
+            L = 1
+            kind = "weak_chain"
+        else:
+            A[:, int(rng.integers(0, n))] = dead_combo[0]
+        kind += "+dead_channel"
     if rng.random() < (0.7 if search else 0.12):                  # a duplicated sensor: bit-identical columns, exact ties between candidates
         A[:, 1] = A[:, 0]
         kind += "+duplicated_column"
@@ -103,7 +130,7 @@ def gen_history(seed, idx, method, info, tier, search=False):
             reqs.append({"data": B, "params": params})
         elif v == 1:
             T2 = T + int(rng.integers(-3, 4))
-            reqs.append({"data": gen_matrix(rng, T2, n if slow else int(rng.integers(2, 4)), kind.split("+")[0]), "params": params})
+            reqs.append({"data": gen_matrix(rng, T2, n if slow else int(rng.integers(2, 4)), kind.split("+")[0].replace("weak_chain", "real")), "params": params})
         else:
             p2 = dict(params)
             which = str(rng.choice(["n_shuffles", "alpha_backward", "k_means"]))
@@ -150,6 +177,9 @@ def gen_history(seed, idx, method, info, tier, search=False):
             jB = len(reqs) - 1
         lab = scheme[:A.shape[1]]
         out += [("call", 0, "arr_c", lab), ("call", jB, "arr_c", lab), ("call", 0, "arr_c", lab)]
+    if "dead_channel" in kind:        # the same request in row-contiguous and in column-contiguous presentations
+        lab = scheme[:A.shape[1]]
+        out += [("call", 0, "arr_c", lab), ("call", 0, "arr_f", lab), ("call", 0, "frame_cols", lab), ("call", 0, "nested", lab)]
     return {"idx": idx, "method": method, "info": info, "kind": kind, "T": T, "n": n, "reqs": reqs, "ops": out,
             "init": (int(rng.integers(0, 2 ** 31)), int(rng.integers(0, 2 ** 31)))}
 
@@ -616,6 +646,9 @@ def run(chk):
                         "answers are compared bit for bit: same interpreter, same libraries, same machine"]
     combos = plan(chk.tier, chk.seed)
     specs = [gen_history(chk.seed, i, m, inf, chk.tier) for i, (m, inf) in enumerate(combos)]
+    # weakly coupled chains with a dead channel (constant at a non-dyadic value), every presentation of the same request
+    chains = [("standard", "gaussian"), ("alternative", "gaussian"), ("standard", "gaussian")] * (1 if chk.tier == "quick" else 6)
+    specs += [gen_history(chk.seed, 10000 + i, m, inf, chk.tier, dead_chain=True) for i, (m, inf) in enumerate(chains)]
     if any(not o["ok"] for o in chk.obligations if o["kind"] == "translator-lemma") or os.environ.get("C07_FORCE_SEARCH"):
         # DESIGN 2.7: a static obligation no longer checks -> spend a dedicated budget searching for a failing input:
         # tie-prone histories (duplicated columns, integer-valued data) over every method and the fast estimators
